@@ -86,12 +86,19 @@ type SeqOpts struct {
 	// EdgeLabel, when set, can add an event for taking an If edge (cond facts).
 	EdgeLabel func(ifi *ssa.If, idx int) string
 	MaxPaths  int
+	// Inline decides whether a statically called function is explored in place.
+	Inline func(caller, callee *ssa.Function) bool
 }
 
 // SuccessSeqs enumerates the event sequences along every path from entry to a
 // Return (each block at most twice per path, so loop bodies are seen once),
 // following only the nil-error successor of error tests. Returned sequences
 // are deduplicated and sorted; ok=false if the path cap was hit.
+//
+// When o.Inline accepts a statically called function, the call is explored in
+// place: the callee's own paths are spliced into the caller's (its parameters
+// rendered as the caller's arguments, its results bound to the call's results),
+// so that extracting a helper — or not — yields the same sequences.
 func SuccessSeqs(f *ssa.Function, o SeqOpts) (seqs [][]string, ok bool) {
 	if len(f.Blocks) == 0 {
 		return nil, false
@@ -99,22 +106,112 @@ func SuccessSeqs(f *ssa.Function, o SeqOpts) (seqs [][]string, ok bool) {
 	if o.MaxPaths == 0 {
 		o.MaxPaths = 20000
 	}
-	cyc := CyclicBlocks(f)
+	cycCache := map[*ssa.Function]map[*ssa.BasicBlock]bool{}
+	cycOf := func(fn *ssa.Function) map[*ssa.BasicBlock]bool {
+		if m, has := cycCache[fn]; has {
+			return m
+		}
+		m := CyclicBlocks(fn)
+		cycCache[fn] = m
+		return m
+	}
 	set := map[string][]string{}
 	paths := 0
 	ok = true
-	var walk func(b *ssa.BasicBlock, count map[*ssa.BasicBlock]int, acc []string)
-	walk = func(b *ssa.BasicBlock, count map[*ssa.BasicBlock]int, acc []string) {
+	type frame struct {
+		fn    *ssa.Function
+		count map[*ssa.BasicBlock]int
+		depth int
+		stack []*ssa.Function
+		// ret continues the caller after an inlined callee returned
+		ret func(x *ssa.Return, acc []string)
+	}
+	bind := func(m map[ssa.Value]string) (undo func()) {
+		old := map[ssa.Value]*string{}
+		for k, v := range m {
+			if cur, has := symOverride[k]; has {
+				c := cur
+				old[k] = &c
+			} else {
+				old[k] = nil
+			}
+			symOverride[k] = v
+		}
+		return func() {
+			for k, v := range old {
+				if v == nil {
+					delete(symOverride, k)
+				} else {
+					symOverride[k] = *v
+				}
+			}
+		}
+	}
+	var walk func(fr *frame, b *ssa.BasicBlock, start int, acc []string)
+	walk = func(fr *frame, b *ssa.BasicBlock, start int, acc []string) {
 		if !ok {
 			return
 		}
-		if count[b] >= 2 {
-			return
+		if start == 0 {
+			if fr.count[b] >= 2 {
+				return
+			}
+			fr.count[b]++
+			defer func() { fr.count[b]-- }()
 		}
-		count[b]++
-		defer func() { count[b]-- }()
-		for _, in := range b.Instrs {
-			acc = append(acc, o.Classify(in, cyc[b])...)
+		for i := start; i < len(b.Instrs); i++ {
+			in := b.Instrs[i]
+			if call, isCall := in.(*ssa.Call); isCall && o.Inline != nil {
+				if h := call.Call.StaticCallee(); h != nil && len(h.Blocks) > 0 && fr.depth < 3 && o.Inline(fr.fn, h) {
+					rec := h == fr.fn
+					for _, s := range fr.stack {
+						if s == h {
+							rec = true
+						}
+					}
+					if !rec && len(h.Params) == len(call.Call.Args) {
+						pm := map[ssa.Value]string{}
+						for k, p := range h.Params {
+							pm[p] = Sym(call.Call.Args[k])
+						}
+						undoParams := bind(pm)
+						idx := i
+						sub := &frame{fn: h, count: map[*ssa.BasicBlock]int{}, depth: fr.depth + 1, stack: append(append([]*ssa.Function{}, fr.stack...), fr.fn)}
+						sub.ret = func(x *ssa.Return, acc2 []string) {
+							var rs []string
+							for _, r := range x.Results {
+								rs = append(rs, Sym(SpilledResult(x, r)))
+							}
+							undoParams()
+							rm := map[ssa.Value]string{}
+							if len(rs) == 1 {
+								rm[call] = rs[0]
+							} else if refs := call.Referrers(); refs != nil {
+								for _, r := range *refs {
+									if ex, isEx := r.(*ssa.Extract); isEx && ex.Index < len(rs) {
+										rm[ex] = rs[ex.Index]
+									}
+								}
+							}
+							undoRes := bind(rm)
+							walk(fr, b, idx+1, acc2)
+							undoRes()
+							undoParams = bind(pm)
+						}
+						walk(sub, h.Blocks[0], 0, acc)
+						undoParams()
+						return
+					}
+				}
+			}
+			if ret, isRet := in.(*ssa.Return); isRet && fr.ret != nil {
+				if !o.FollowErr && ReturnsNonNilError(ret) {
+					return
+				}
+				fr.ret(ret, acc)
+				return
+			}
+			acc = append(acc, o.Classify(in, cycOf(fr.fn)[b])...)
 			switch x := in.(type) {
 			case *ssa.Return:
 				if !o.FollowErr && ReturnsNonNilError(x) {
@@ -131,15 +228,29 @@ func SuccessSeqs(f *ssa.Function, o SeqOpts) (seqs [][]string, ok bool) {
 			case *ssa.Panic:
 				return
 			case *ssa.If:
-				if okEdge, is := IsErrCheck(x); is && !o.FollowErr {
-					a := acc
-					if o.EdgeLabel != nil {
-						if s := o.EdgeLabel(x, okEdge); s != "" {
-							a = append(append([]string{}, acc...), s)
-						}
+				if okEdge, is := IsErrCheck(x); is {
+					// an error bound by an inlined callee decides the branch
+					known, val := boundError(x)
+					switch {
+					case known && val == "c:nil":
+						walk(fr, b.Succs[okEdge], 0, acc)
+						return
+					case known && o.FollowErr:
+						walk(fr, b.Succs[1-okEdge], 0, acc)
+						return
+					case known:
+						return
 					}
-					walk(b.Succs[okEdge], count, a)
-					return
+					if !o.FollowErr {
+						a := acc
+						if o.EdgeLabel != nil {
+							if s := o.EdgeLabel(x, okEdge); s != "" {
+								a = append(append([]string{}, acc...), s)
+							}
+						}
+						walk(fr, b.Succs[okEdge], 0, a)
+						return
+					}
 				}
 				for idx := 0; idx < 2; idx++ {
 					a := append([]string{}, acc...)
@@ -148,16 +259,16 @@ func SuccessSeqs(f *ssa.Function, o SeqOpts) (seqs [][]string, ok bool) {
 							a = append(a, s)
 						}
 					}
-					walk(b.Succs[idx], count, a)
+					walk(fr, b.Succs[idx], 0, a)
 				}
 				return
 			case *ssa.Jump:
-				walk(b.Succs[0], count, acc)
+				walk(fr, b.Succs[0], 0, acc)
 				return
 			}
 		}
 	}
-	walk(f.Blocks[0], map[*ssa.BasicBlock]int{}, nil)
+	walk(&frame{fn: f, count: map[*ssa.BasicBlock]int{}}, f.Blocks[0], 0, nil)
 	var keys []string
 	for k := range set {
 		keys = append(keys, k)
@@ -167,6 +278,41 @@ func SuccessSeqs(f *ssa.Function, o SeqOpts) (seqs [][]string, ok bool) {
 		seqs = append(seqs, set[k])
 	}
 	return seqs, ok
+}
+
+// boundError: the error tested by ifi was bound by an inlined callee's return.
+func boundError(ifi *ssa.If) (bool, string) {
+	if len(symOverride) == 0 {
+		return false, ""
+	}
+	cond := ifi.Cond
+	for {
+		if u, ok := cond.(*ssa.UnOp); ok && u.Op == token.NOT {
+			cond = u.X
+			continue
+		}
+		break
+	}
+	b, ok := cond.(*ssa.BinOp)
+	if !ok {
+		return false, ""
+	}
+	v := b.X
+	if c, isC := v.(*ssa.Const); isC && c.IsNil() {
+		v = b.Y
+	}
+	s, has := symOverride[v]
+	if !has {
+		return false, ""
+	}
+	// only constants decide: nil => success; a constructed error => failure
+	if s == "c:nil" {
+		return true, s
+	}
+	if strings.HasPrefix(s, "$") || strings.Contains(s, "#") {
+		return false, "" // the callee passed on somebody else's error: not decided here
+	}
+	return true, s
 }
 
 // SeqString renders a sequence set.
@@ -194,7 +340,13 @@ func CondLabel(ifi *ssa.If, idx int) string {
 // (symbolic), calls (static: call:Name(args); interface: inv:Method(args);
 // dynamic: dyn(args)) accepted by keepCall, and the final return ret(...).
 func TraceSeqs(f *ssa.Function, keepCall func(call ssa.CallInstruction) bool) ([][]string, bool) {
+	return TraceSeqsInline(f, keepCall, nil)
+}
+
+// TraceSeqsInline is TraceSeqs with helper calls accepted by inline explored in place.
+func TraceSeqsInline(f *ssa.Function, keepCall func(call ssa.CallInstruction) bool, inline func(caller, callee *ssa.Function) bool) ([][]string, bool) {
 	return SuccessSeqs(f, SeqOpts{
+		Inline:    inline,
 		EdgeLabel: CondLabel,
 		Classify: func(in ssa.Instruction, inLoop bool) []string {
 			pre := ""
@@ -273,4 +425,84 @@ func SpilledResult(ret *ssa.Return, r ssa.Value) ssa.Value {
 		idx = len(b.Instrs)
 	}
 	return r
+}
+
+// WalkInlined visits the instructions of f in block order; a static call
+// accepted by inline is visited in place (the callee's instructions follow,
+// with its parameters bound to the caller's arguments for Sym, up to depth 3,
+// never recursively). visit receives each instruction and the chain of calls
+// it was reached through. ArgOf resolves a bound parameter to the argument
+// value of the innermost enclosing inlined call.
+func WalkInlined(f *ssa.Function, inline func(caller, callee *ssa.Function) bool, visit func(in ssa.Instruction, via []*ssa.Call)) {
+	var rec func(fn *ssa.Function, via []*ssa.Call, stack []*ssa.Function)
+	rec = func(fn *ssa.Function, via []*ssa.Call, stack []*ssa.Function) {
+		for _, b := range fn.Blocks {
+			for _, in := range b.Instrs {
+				if call, ok := in.(*ssa.Call); ok && inline != nil && len(via) < 3 {
+					if h := call.Call.StaticCallee(); h != nil && len(h.Blocks) > 0 && len(h.Params) == len(call.Call.Args) && inline(fn, h) {
+						cyc := h == fn
+						for _, s := range stack {
+							if s == h {
+								cyc = true
+							}
+						}
+						if !cyc {
+							old := map[ssa.Value]*string{}
+							oldArg := map[ssa.Value]ssa.Value{}
+							for _, p := range h.Params {
+								if cur, has := symOverride[p]; has {
+									c := cur
+									old[p] = &c
+								} else {
+									old[p] = nil
+								}
+								if cur, has := boundArg[p]; has {
+									oldArg[p] = cur
+								}
+							}
+							// evaluate all argument renderings before binding any
+							syms := make([]string, len(h.Params))
+							for k := range h.Params {
+								syms[k] = Sym(call.Call.Args[k])
+							}
+							for k, p := range h.Params {
+								symOverride[p] = syms[k]
+								boundArg[p] = call.Call.Args[k]
+							}
+							rec(h, append(append([]*ssa.Call{}, via...), call), append(append([]*ssa.Function{}, stack...), fn))
+							for _, p := range h.Params {
+								if old[p] == nil {
+									delete(symOverride, p)
+								} else {
+									symOverride[p] = *old[p]
+								}
+								if v, has := oldArg[p]; has {
+									boundArg[p] = v
+								} else {
+									delete(boundArg, p)
+								}
+							}
+							continue
+						}
+					}
+				}
+				visit(in, via)
+			}
+		}
+	}
+	rec(f, nil, nil)
+}
+
+var boundArg = map[ssa.Value]ssa.Value{}
+
+// ArgOf follows parameters bound by WalkInlined to the caller's argument value.
+func ArgOf(v ssa.Value) ssa.Value {
+	for i := 0; i < 5; i++ {
+		a, ok := boundArg[v]
+		if !ok {
+			return v
+		}
+		v = a
+	}
+	return v
 }
